@@ -96,7 +96,7 @@ struct Reference {
 
     // Applies the transformation and repetition defined by this reference to
     // the points in point_array, appending the results to the same array.
-    void repeat_and_transform(Array<Vec2>& point_array) const;
+    void repeat_and_transform(Array<Vec2>& point_array, bool all_offsets = false) const;
 
     // These functions create and append the elements that are created by this
     // reference to the result array.  Argument depth controls how many levels
